@@ -1,3 +1,4 @@
+import GoSSE.Proofs.GenEquivQueue
 import GoSSE.Proofs.GenEquiv
 import GoSSE.Proofs.QueueFinite
 /-!
@@ -289,5 +290,14 @@ theorem translated_topicsIntersect_is_model (fuel : Nat) (a b : List Bytes) (hfa
   GenEquiv.topicsIntersect_eq fuel a b hfa hfb
 
 example : Gen.topicsIntersect 4 [[97], [98]] [[99], [98]] = .ok true := by rfl
+
+
+/-- `queue[T].enqueue` *as translated from replay.go* (generic code instantiated at a message slot; the element
+assignment `q.buf[q.tail] = v` a checked operation) produces, from every queue state, exactly the state of the
+model's `enqueue` the theorems above are about — and panics exactly where the model says so (never, from a
+well-formed state: `wf_preserved`). -/
+theorem translated_enqueue_is_model (fuel : Nat) (q : Queue) (v : Entry) :
+    GenEquiv.Agrees (Gen.queue_enqueue fuel (GenEquiv.toGen q) (some v)) (Queue.enqueue q v) :=
+  GenEquiv.enqueue_eq fuel q v
 
 end GoSSE.Props.C08
